@@ -298,7 +298,7 @@ def build(case, w=None, h=None):
 
 def effective_method(case):
     """Per-call override, else what was set on the instance / class, else the default (lines)."""
-    return case.get("method") or (case.get("set_method") or [None, None])[1] or "lines"
+    return (case.get("method") or (case.get("set_method") or [None, None])[1] or "lines").lower()
 
 
 def effective_jpeg(case):
